@@ -282,7 +282,7 @@ class GeneralSurrogate:
         
         # If precipitate phase has not been trained, used underlying thermodynamics function
         else:
-            return self.therm.getDrivingForce(x, T, precPhase=precPhase, *args, **kwargs)
+            return self.therm.getDrivingForce(x, T, precPhase, *args, **kwargs)
 
     def trainDiffusivity(self, x, T, phase=None, logX=False, broadcast=True):
         '''
@@ -737,7 +737,7 @@ class MulticomponentSurrogate(GeneralSurrogate):
         
         # If precipitate phase has not been trained, used underlying thermodynamics function
         else:
-            return self.therm.curvatureFactor(x, T, precPhase=precPhase, *args, **kwargs)
+            return self.therm.curvatureFactor(x, T, precPhase, *args, **kwargs)
         
     def getGrowthAndInterfacialComposition(self, x, T, dG, R, gExtra, precPhase = None, *args, **kwargs):
         '''
